@@ -64,7 +64,9 @@ Init ==
   /\ regs \in Maps
   /\ \E i \in 1..Len(regs) :
        /\ regs[i].t = 1
-       /\ \E f \in RegionStartFrame(regs[i])..RegionEndFrame(regs[i]) :
+       \* the image starts at ANY page-aligned address inside the region: on one of its whole frames or in its trailing
+       \* partial page (then the region may hold no whole frame at all)
+       /\ \E f \in {x \in 0..(MaxAddr \div PS) : regs[i].a <= x * PS /\ x * PS < regs[i].a + regs[i].l} :
             /\ ks = f * PS
             \* the image ends anywhere up to the end of its region: on a frame boundary, just past one, or at the region's
             \* (possibly unaligned) end inside its trailing partial page
@@ -83,7 +85,10 @@ Visit(i, l, c) ==
     IF r.t # 1 \/ r.l < PS THEN Visit(i + 1, l, c)
     ELSE LET st == RegionStartFrame(r)  e == RegionEndFrame(r) IN
       IF l >= e THEN Visit(i + 1, l, c)
-      ELSE LET l2 == IF (l <= st /\ KSF = st) \/ (l <= e /\ l + 1 = KSF)
+      \* second clause: "we are IN this region and the next frame is the kernel's first" - before the repair (fix: boot
+      \* allocator kernel jump) the cursor was not required to be inside the region (Bug JumpFromOtherRegion): a kernel image
+      \* in the trailing partial page of an earlier region made the cursor jump to a frame below this region's first
+      ELSE LET l2 == IF (l <= st /\ KSF = st) \/ ((Bug = "JumpFromOtherRegion" \/ l >= st) /\ l <= e /\ l + 1 = KSF)
                      THEN (IF Bug = "BootJumpToKernelEnd" THEN KEF ELSE KEF + 1)
                      ELSE IF l < st \/ c = 0 THEN st
                      ELSE l + 1
